@@ -873,13 +873,22 @@ pub fn parse_fen(text: &[u8]) -> Option<Pos> {
     if n < 4 || n > 6 {
         return None;
     }
-    let board = parse_board(&text[s[0]..e[0]])?;
-    let side = &text[s[1]..e[1]];
+    if n >= 5 && !all_digits(&text[s[4]..e[4]]) {
+        return None;
+    }
+    if n >= 6 && !all_digits(&text[s[5]..e[5]]) {
+        return None;
+    }
+    parse_fen_fields(&text[s[0]..e[0]], &text[s[1]..e[1]], &text[s[2]..e[2]], &text[s[3]..e[3]])
+}
+
+/// The four position fields, already split.
+pub fn parse_fen_fields(bf: &[u8], side: &[u8], cf: &[u8], ef: &[u8]) -> Option<Pos> {
+    let board = parse_board(bf)?;
     if side.len() != 1 || (side[0] != b'w' && side[0] != b'b') {
         return None;
     }
     let white_to_move = side[0] == b'w';
-    let cf = &text[s[2]..e[2]];
     let mut castle = [false; 4];
     // lenient on purpose: any non-empty combination of the letters K Q k q and `-` (order and
     // repeats are not judged); the rights are the letters present
@@ -900,7 +909,6 @@ pub fn parse_fen(text: &[u8]) -> Option<Pos> {
             i += 1;
         }
     }
-    let ef = &text[s[3]..e[3]];
     let mut ep = 8u8;
     if !(ef.len() == 1 && ef[0] == b'-') {
         if ef.len() != 2 || ef[0] < b'a' || ef[0] > b'h' {
@@ -910,12 +918,6 @@ pub fn parse_fen(text: &[u8]) -> Option<Pos> {
             return None;
         }
         ep = ef[0] - b'a';
-    }
-    if n >= 5 && !all_digits(&text[s[4]..e[4]]) {
-        return None;
-    }
-    if n >= 6 && !all_digits(&text[s[5]..e[5]]) {
-        return None;
     }
     Some(Pos { board, white_to_move, castle, ep })
 }
